@@ -125,12 +125,12 @@ theorem applyDiff_spec (f t : List Key) (old : List Item) (hf : f.Nodup) (ht : t
     (hold : old.map (·.key) = f) (hne : t ≠ []) (bs : Nat) (marker : NodeId) (w : World)
     (hw : w.storage = old.map some) :
     ∃ rem U ads, Ctx f t old rem U ads ∧ (∀ a ∈ ads, a.mode = .normal) ∧
-      (f ≠ [] → U = (unpackMoves (diff f t)).1) ∧ (f = [] → U = []) ∧
+      U = (unpackMoves (diff f t)).1 ∧
       applyDiff bs marker (diff f t) t w = pipeline bs marker t rem U ads ads.length w := by
   by_cases hfe : f = []
   · subst hfe
     obtain ⟨hc, hr, hu, ha, hl⟩ := spec_of_diff_from_empty t hne
-    refine ⟨[], [], (List.range t.length).map fun i => { at_ := i, mode := .normal }, ?_, ?_, ?_, ?_, ?_⟩
+    refine ⟨[], [], (List.range t.length).map fun i => { at_ := i, mode := .normal }, ?_, ?_, ?_, ?_⟩
     · refine ⟨hf, ht, hold, ⟨?_, ?_, ?_⟩⟩
       · symm; rw [List.filter_eq_nil_iff]; intro i _; simp [isRem]
       · simp only [List.map_map, Function.comp_def, List.map_id', List.length_nil, Nat.zero_max]
@@ -144,15 +144,14 @@ theorem applyDiff_spec (f t : List Key) (old : List Item) (hf : f.Nodup) (ht : t
     · intro a ha'
       obtain ⟨i, _, rfl⟩ := List.mem_map.mp ha'
       rfl
-    · intro h; exact absurd rfl h
-    · intro _; rfl
+    · exact hu.symm
     · rw [applyDiff_eq_pipeline _ _ _ _ _ hc, hr, hu, ha, hl]
       have : old = [] := by cases old <;> simp_all
       subst this
       have := pipeline_append_eq_normal bs marker t t.length w (by simpa using hw)
       simpa using this
   · obtain ⟨hc, hs, hl, hn⟩ := spec_of_diff f t hfe hne
-    refine ⟨_, _, _, ⟨hf, ht, hold, hs⟩, hn, fun _ => rfl, fun h => absurd h hfe, ?_⟩
+    refine ⟨_, _, _, ⟨hf, ht, hold, hs⟩, hn, rfl, ?_⟩
     rw [applyDiff_eq_pipeline _ _ _ _ _ hc, hl]
 
 end Leptos.Keyed
